@@ -412,6 +412,15 @@ mut('ok-c18-objpath-reorder', ['C18'], M,
     [("    if not p.startswith('/'):\n        raise MarshallingError('Object paths must begin with a \"/\"')\n    if len(p) > 1 and p[-1] == '/':\n        raise MarshallingError('Object paths may not end with \"/\"')\n    if '//' in p:\n        raise MarshallingError('\"//\" is not allowed in object paths\"')\n",
       "    if '//' in p:\n        raise MarshallingError('\"//\" is not allowed in object paths\"')\n    if p != '/' and p.endswith('/'):\n        raise MarshallingError('Object paths may not end with \"/\"')\n    if p[:1] != '/':\n        raise MarshallingError('Object paths must begin with a \"/\"')\n")], kind='benign')
 
+mut('c10-caller-always', ['C10'], OB,
+    [("        if m._dbusCaller:\n            if methodArguments:", "        if True:\n            if methodArguments:")], ['C10.D6'])
+mut('c10-args-dropped', ['C10'], OB,
+    [("            if methodArguments:\n                return m(*methodArguments)\n            else:\n                return m()", "            return m()")], ['C10.D6'])
+mut('c10-double-invoke', ['C10'], OB,
+    [("            if methodArguments:\n                return m(*methodArguments)\n            else:\n                return m()", "            if methodArguments:\n                m(*methodArguments)\n                return m(*methodArguments)\n            else:\n                return m()")], ['C10.D6'])
+mut('c03-serial-per-instance', ['C03'], MS,
+    [("            DBusMessage._nextSerial += 1\n", "            self._nextSerial += 1\n")], ['C03.D5'])
+
 # benign variants --------------------------------------------------------------
 mut('ok-int16-condexpr', ['C01', 'C02'], M,
     [("return 2, [struct.pack(lendian and '<h' or '>h', var)]",
